@@ -112,8 +112,16 @@ impl Drop for Scratch {
 }
 
 /// Write the input file according to the fault; returns the path to pass.
+/// Where `prepare_input` puts the program: the file name varies with the content (blanks,
+/// non-ASCII letters, several dots) - a path is data too, and the tools must take it as it comes.
+pub fn input_path(s: &Scratch, header: &str, statements: &[String]) -> PathBuf {
+    let names = ["in.qasm", "in.qasm", "in put.qasm", "ünï cödé.qasm", "in.v2.final.qasm", "IN.QASM"];
+    let h = crate::decider::hash_str(header) ^ statements.len() as u64;
+    s.path(names[(h % names.len() as u64) as usize])
+}
+
 pub fn prepare_input(s: &Scratch, header: &str, statements: &[String], fault: &InFault) -> PathBuf {
-    let p = s.path("in.qasm");
+    let p = input_path(s, header, statements);
     match fault {
         InFault::None => {
             let mut t = header.to_string();
